@@ -107,7 +107,11 @@ func (fr *frame) appendOp(st *PState, c *ssa.CallCommon) Val {
 	rt := c.Args[0].Type()
 	if s.Sort == SBytes {
 		// append([]byte, []byte...) / append([]byte, string...)
-		r := st.Name("app", App(SBytes, "cat", s, t))
+		if s.S == "bnil" || s.S == fr.ex.Lits.Term("").S {
+			// append(nil, t...) is t's content
+			return WithGo(t, rt)
+		}
+		r := Cat(s, t)
 		st.Assume(Eq(App(SInt, "blen", r), App(SInt, "+", App(SInt, "blen", s), App(SInt, "blen", t))))
 		return WithGo(r, rt)
 	}
